@@ -322,6 +322,9 @@ impl<'a, R: Resolve, U> Resolve for Importer<'a, R, U> {
     fn get<T: Object+datasize::DataSize>(&self, r: Ref<T>) -> Result<RcRef<T>> {
         self.resolver.get(r)
     }
+    fn with_loading<T>(&self, r: PlainRef, f: impl FnOnce() -> Result<T>) -> Result<T> {
+        self.resolver.with_loading(r, f)
+    }
     fn get_data_or_decode(&self, id: PlainRef, range: Range<usize>, filters: &[StreamFilter]) -> Result<Arc<[u8]>> {
         self.resolver.get_data_or_decode(id, range, filters)
     }
